@@ -160,11 +160,11 @@ ADDED = {
   'C10': 'far deadlines, overdue sets, 7 pending actions, on-tick and just-past-tick deadlines at 1 s, callables without __name__, up to 300 (3000) blocking actions, clock jumps past several deadlines',
   'C11': 'Kafka transport, back-pressure scripts, replies for tags of queued requests, Rerr / BAD_Rerr, acknowledged discards, Open() again, 4-byte reads, tag counter jumps beyond 16 bits',
   'C12': 'discard-after-write ordering, transport-level parts (also behind a singleton pool), balancer-open hop on the balancer harness, tags above 16 bits, a 70 KB request, deadline firing while the periodic Tping is unanswered',
-  'C13': 'interleaved writers under 31 s back-pressure, two service families, non-text property values, a message dispatched repeatedly, DEBUG logging, 3-byte reads / 7-byte sends, frame-boundary and ping-count clauses under back-pressure',
-  'C14': 'history-dependent call sequences, two service families, keyword calls, percent signs in exception texts, pooled timeout-then-call, write splits, an interface three levels deep',
+  'C13': 'interleaved writers under 31 s back-pressure, two service families, non-text property values, a message dispatched repeatedly, DEBUG logging, 3-byte reads / 7-byte sends, frame-boundary and ping-count clauses under back-pressure, an ordinary call following a rejected call on the same client',
+  'C14': 'history-dependent call sequences, two service families, keyword calls, percent signs in exception texts, pooled timeout-then-call, write splits, an interface three levels deep, two calls in flight through one serializer over two connections',
   'C15': 'client id overrides, requests while connecting, call forms, batched replies, small I/O, the complete client x every produce error code, Kafka transport under deadline schedules',
   'C16': 'duplicate fault signals, Busy-reporting sink, killed waiter, yielding Close with a linearization oracle, labels in the shared provider',
-  'C17': 'falsy values, BaseException failures, one object at several positions, input list mutated after the call, FromValue inputs',
+  'C17': 'falsy values, BaseException failures, one object at several positions, input list mutated after the call, FromValue inputs, a continuation that blocks',
   'C18': 'ageing, end-to-end runs, two metric classes, zero amounts, assigned-after-construction sources, increments during an aggregation, reservoirs still filling when they age',
   'C19': 'value-keyed consumer, restarts with equal data, concurrent readers, kept iterator, the ZooKeeperServerSetProvider path with re-used node names, same-name re-creation, a snapshot-then-notifications consumer next to non-member children',
   'C20': 'same-named interfaces, decorated / aliased / _async-named methods, colliding keyword names, upper-case URIs, repeated endpoints, repeated SetUri, several parser objects',
